@@ -84,9 +84,16 @@ func main() {
 		closureCtxScenarios(rep, prop)
 		if prop == "C04" {
 			c04DeadlineScenarios(rep, prop)
+			c04LateErrorResponse(rep, prop)
 		}
 		if prop == "C05" {
 			runCalleeReplay(rep, prop)
+			// calls that register exactly while the link fails (transport only: the link's context lives on)
+			if *tier == "thorough" {
+				c15CallsStartingAtTeardown(rep, prop, 3000, 24, 30*time.Second, false)
+			} else {
+				c15CallsStartingAtTeardown(rep, prop, 400, 24, 4*time.Second, false)
+			}
 		}
 	case "C06":
 		runC06(rep, *tier, *seed)
